@@ -80,8 +80,20 @@ def run_streams(pid, cfg, tier, seed, extra_round=0):
         res = Result(key)
         res.seed_key = f"{seed}/{key}/{extra_round}"
         t = time.time()
+        import numpy as _np
+        err0 = _np.geterr()
         try:
-            mod.run(rng, tier, res=res, **kw)
+            try:
+                mod.run(rng, tier, res=res, **kw)
+            finally:
+                err1 = _np.geterr()
+                if err1 != err0:
+                    # process-wide numpy floating-point error handling is state of the CALLER's process: a library call that
+                    # leaves it changed makes later, unrelated computations behave differently (C07)
+                    res.violations.append({"property": "C07", "what": f"stream {key}: numpy's process-wide floating-point error handling was "
+                                           f"{err0} before the library was exercised and is {err1} afterwards (np.seterr without restoring it)",
+                                           "replay": {"stream": key, "seed_key": res.seed_key}})
+                    _np.seterr(**err0)
         except Exception as ex:
             # an exception that escapes a stream: if it was RAISED INSIDE the code under test (innermost frame under
             # /repo's opfython), or is an index/attribute error of the harness reading a corrupted structure the code
